@@ -245,3 +245,9 @@ also("C13", "representation agreement of digest keys", "Also decides that digest
 also("C15", "must-pass-through rule on the technology guards of measurement-only mode", "Also decides that a measurement-only run looks at every technology section before it returns.")
 also("C16", "who-may-manufacture rule on report measurements", "Also decides that the extraction library never makes up a measurement of the real size.")
 also("C19", "provenance rule on returned storage (sync.Pool), T24/T25 over the parser", "Also decides that evaluation results do not alias pooled storage.")
+# seed round 19
+also("C02", "no-fallback rule on the policy derivation of the validation entry points", "Also decides that a failed policy derivation ends the validation instead of falling back to the base policy.")
+also("C06", "exclusive-source clause on caller-named fields", "Also decides that changelist, commit and timestamp are signed as requested on every path.")
+also("C08", "termination rule on inclusive unsigned loop bounds", "Also decides that no loop over an unsigned counter tests an unbounded inclusive bound (wrap-around non-termination).")
+also("C18", "coverage rule on chunked scans (shared with C04.R11)", "Also decides that a word-at-a-time check of a fixed-layout field looks at every byte.")
+also("C20", "accumulation rule on errors across listing pages", "Also decides that a failure on an earlier listing page is not overwritten by a later page.")
